@@ -94,6 +94,7 @@ func main() {
 		}
 		probeUseBeforeCheck(c)
 		probeTypedNil(c)
+		probeAlias(c)
 		os.Exit(0)
 	}
 	if *prop == "probe-getters" {
